@@ -144,6 +144,9 @@ func (p *Program) Rank() int {
 				if s.Step != "" {
 					r += 3
 				}
+				if s.Step == "=+" {
+					r += 2
+				}
 				if s.NoInit {
 					r += 2
 				}
@@ -309,6 +312,22 @@ func edits(p *Program) []func() {
 				}
 			case SLoop:
 				add(func() { splice(b, i, s.Body) })
+				if s.Loop == LFor { // one unrolled iteration: body, then the step as a statement
+					add(func() {
+						var step *Stmt
+						switch s.Step {
+						case "pre++":
+							step = IncDec(s.Var, "pre++")
+						case "+=":
+							step = OpAssign(s.Var, "+=", Int(1))
+						case "=+":
+							step = Assign(s.Var, Bin("+", Var(s.Var), Int(1)))
+						default:
+							step = IncDec(s.Var, "post++")
+						}
+						splice(b, i, append(append([]*Stmt{}, s.Body...), step))
+					})
+				}
 			case SSwitch:
 				for j := range s.Cases {
 					j := j
@@ -325,6 +344,17 @@ func edits(p *Program) []func() {
 									repl = append(repl, Assign(pa.Name, copyExpr(s.E.A[k])))
 								}
 								splice(b, i, append(repl, copyStmts(f.Body)...))
+								for _, sl := range exprSlots(p) {
+									if (*sl).K == ECall && (*sl).S == f.Name {
+										return
+									}
+								}
+								for k, g := range p.Funcs { // no call left: drop the declaration too
+									if g == f {
+										p.Funcs = append(append([]*Func{}, p.Funcs[:k]...), p.Funcs[k+1:]...)
+										break
+									}
+								}
 							})
 						}
 					}
@@ -349,6 +379,13 @@ func edits(p *Program) []func() {
 				for j := range s.Cases {
 					j := j
 					add(func() { s.Cases = append(append([]Case{}, s.Cases[:j]...), s.Cases[j+1:]...) })
+					if s.Cases[j].Val == nil {
+						add(func() { s.Cases[j].Val = Int(0) })
+					}
+				}
+			case SAssign:
+				if e := s.E; e != nil && e.K == EBin && len(e.A) == 2 && e.A[0].K == EVar && e.A[0].S == s.Var && (e.S == "+" || e.S == "-" || e.S == "*") {
+					add(func() { s.K, s.Op, s.E = SOpAssign, e.S+"=", e.A[1] })
 				}
 			case SLoop:
 				if s.N > 1 {
@@ -373,6 +410,9 @@ func edits(p *Program) []func() {
 				}
 				if s.NoInit {
 					add(func() { s.NoInit = false })
+				}
+				if s.Step == "=+" {
+					add(func() { s.Step = "+=" })
 				}
 				if s.Step != "" {
 					add(func() { s.Step = "" })
@@ -421,7 +461,26 @@ func edits(p *Program) []func() {
 			}
 		}
 	}
-	// 6. expressions
+	// 6. renumber an int literal value everywhere at once (the int analogue of alpha-renaming)
+	seen := map[int]bool{}
+	for _, sl := range exprSlots(p) {
+		if e := *sl; e.K == EInt && e.I != 0 && !seen[e.I] {
+			seen[e.I] = true
+			for _, to := range []int{0, 1} {
+				from, to := e.I, to
+				if to != from && (to == 0 || from > 1 || from < 0) {
+					add(func() {
+						for _, sl2 := range exprSlots(p) {
+							if (*sl2).K == EInt && (*sl2).I == from {
+								(*sl2).I = to
+							}
+						}
+					})
+				}
+			}
+		}
+	}
+	// 7. expressions
 	for _, sl := range exprSlots(p) {
 		sl := sl
 		e := *sl
